@@ -62,6 +62,29 @@ func (e *Exec) specCall(env *SpecEnv, fn *ssa.Function, args []SV) SV {
 		for i, p := range fn.Params {
 			cf.regs[p] = args[i]
 		}
+		// arguments that mention a quantified variable: the call denotes the function's defining spec term itself
+		// (`defines result == f(params)`); no facts can be asserted about a bound variable outside its quantifier
+		anyBound := false
+		for _, a := range args {
+			var ls []*Term
+			leaves(a, &ls)
+			for _, t := range ls {
+				if hasBound(t) {
+					anyBound = true
+				}
+			}
+		}
+		if anyBound {
+			for _, d := range ct.Defines {
+				if be, ok := d.Expr.(*ast.BinaryExpr); ok && be.Op == token.EQL {
+					if id, ok := be.X.(*ast.Ident); ok && id.Name == "result" {
+						denv := &SpecEnv{e: e, fr: cf, st: env.st, bound: map[string]SV{}, cs: e.cs, pkg: ct.Pkg, unfold: 1}
+						return denv.eval(be.Y)
+					}
+				}
+			}
+			panic("spec: call of " + fn.Name() + " under a quantifier needs a `defines result == ...` clause")
+		}
 		results := fn.Signature.Results()
 		var rs []SV
 		for i := 0; i < results.Len(); i++ {
